@@ -16,6 +16,7 @@ import DadiVerif.Model.LowPass
                                                          sims = `-` | i.i.i=v,v,…;… one flattened sim_output per simulated index)
    lp_projected pops model        -> ok <nd>             the plain projection of the model through projection_matrix (refAxesOf)
    lp_deepbound pops              -> ok D,bound,eps,delta  deepDepth, deepBound and its two constants (C18_deep_coverage)
+   lp_deepentry pops              -> ok D,bound          deepDepth and the entry-wise constant deepEntryBound (C18_deep_coverage_entrywise)
    lp_projmix0 nseq nsub          -> ok row;row;…|maxdiff  Hardy–Weinberg mixture of individual-subsampling rows (limit of the F > 0 branch of
                                                          projection_matrix at F = 0⁺) and its exact largest distance from the hypergeometric rows
    lp_defined cov nseq nsub       -> ok a,b,c            nocallOk, hetErrOk, probEnoughOk as 0/1 (generated definedness conditions)
@@ -183,6 +184,11 @@ def handle (toks : List String) : Option String :=
       | none =>
         let D := deepDepth pops
         some ("ok " ++ showList [(D : Rat), deepBound pops, deepEps D (maxOf (pops.map (·.nseq))), deepDelta D (maxOf (pops.map (·.nsub)))])
+  | ["lp_deepentry", pops] => do
+      let pops ← (pops.splitOn ";").mapM parsePop
+      match pops.findSome? popErr with
+      | some e => some e
+      | none => some ("ok " ++ showList [((deepDepth pops : Nat) : Rat), deepEntryBound pops])
   | ["lp_projmix0", nseq, nsub] => do
       let nseq ← nseq.toNat?; let nsub ← nsub.toNat?
       if nseq % 2 ≠ 0 then some "err odd"
